@@ -242,9 +242,17 @@ package car
 //@   call[File.Seek#0] assert rewind [C15]: arg1 == 0 && arg2 == 0
 
 //@ func (*Reader).Roots
+//@   let dr, drerr := call[Reader.DataReader#0]
+//@   let hdr, herr := call[carv1.ReadHeader#0]
+//@   call[carv1.ReadHeader#0] assert from_the_payload_window [C07,C13]: ref(arg0) == ref(dr) && drerr == nil
+//@   ensures roots_of_the_payload_header [C07,C13]: err == nil && old(len(r.roots)) == 0 && old(r.roots) == nil ==> herr == nil && result0 == hdr.Roots
 //@   call[carv1.ReadHeader#0] assert configured_header_limit [C09]: arg1 == r.opts.MaxAllowedHeaderSize
 
 //@ func ReadVersion
+//@   let hdr, herr := call[carv1.ReadHeader#0]
+//@   call[carv1.ReadHeader#0] assert from_the_given_stream [C07,C13]: ref(arg0) == ref(r)
+//@   ensures version_of_the_pragma_or_header [C07,C13]: err == nil ==> herr == nil && result0 == hdr.Version
+//@   ensures fails_with_header [C09]: herr != nil ==> err != nil && result0 == 0
 //@   call[carv1.ReadHeader#0] assert configured_header_limit [C09]: arg1 == o.MaxAllowedHeaderSize
 
 // Options (C04, C05, C09, ...): every option sets exactly its own field; ApplyOptions supplies the documented defaults.
@@ -332,3 +340,56 @@ package car
 //@   ensures cid_size_default [C04]: result.MaxIndexCidSize != 0
 //@   loop[0] invariant untouched_without_options [C04,C05,C09]: len(opt) == 0 ==> cur(opts).MaxAllowedHeaderSize == 33554432 && cur(opts).MaxAllowedSectionSize == 8388608 && cur(opts).IndexCodec == 0 && cur(opts).MaxIndexCidSize == 0 && cur(opts).DataPadding == 0 && cur(opts).IndexPadding == 0 && !cur(opts).StoreIdentityCIDs && !cur(opts).BlockstoreUseWholeCIDs && !cur(opts).BlockstoreAllowDuplicatePuts && !cur(opts).WriteAsCarV1 && !cur(opts).ZeroLengthSectionAsEOF && !cur(opts).TrustedCAR
 //@   ensures no_options_means_defaults [C04,C05,C09]: len(opt) == 0 ==> result.MaxAllowedHeaderSize == 33554432 && result.MaxAllowedSectionSize == 8388608 && result.IndexCodec == 1025 && result.MaxIndexCidSize == 2048 && result.DataPadding == 0 && result.IndexPadding == 0 && !result.StoreIdentityCIDs && !result.BlockstoreUseWholeCIDs && !result.BlockstoreAllowDuplicatePuts && !result.WriteAsCarV1 && !result.ZeroLengthSectionAsEOF && !result.TrustedCAR
+
+//@ func NewReader
+//@   let ver, verr := call[ReadVersion#0]
+//@   let rverr := call[Reader.readV2Header#0]
+//@   call[ReadVersion#0] assert from_the_start_of_the_input [C07,C13]: pos(arg0) == sbase(arg0) && arg1 == opts
+//@   call[io.NewOffsetReadSeeker#0] assert whole_input [C07,C13]: ref(arg0) == ref(r) && arg1 == 0
+//@   ensures only_v1_or_v2 [C07,C09,C13]: err == nil ==> result0.Version == ver && (ver == 1 || ver == 2)
+//@   ensures v2_header_is_read [C05,C07,C13]: err == nil && ver == 2 ==> rverr == nil
+//@   ensures wiring [C07,C13]: err == nil ==> ref(result0.r) == ref(r)
+//@   ensures rejects_other_versions [C09,C13]: verr == nil && ver != 1 && ver != 2 ==> err != nil
+
+//@ func (*Reader).readV2Header
+//@   call[io.NewSectionReader#0] assert header_window [C05,C07,C13]: ref(arg0) == ref(r.r) && arg1 == 11 && arg2 == 40
+//@   call[Header.ReadFrom#0] assert into_own_header [C05,C07,C13]: true
+
+//@ func OpenReader
+//@   let rd, nerr := call[NewReader#0]
+//@   ensures reader_over_the_file [C07,C13]: err == nil ==> result0 == rd && nerr == nil
+
+//@ func GenerateIndex
+//@   requires origin [C03]: pos(v1r) == sbase(v1r)
+//@   let idx, nerr := call[index.New#0]
+//@   call[index.New#0] assert configured_codec [C03,C05,C11]: arg0 == wopts.IndexCodec
+//@   call[LoadIndex#0] assert fills_that_index_from_the_input [C03]: ref(arg0) == ref(idx) && ref(arg1) == ref(v1r) && arg2 == opts
+//@   ensures the_filled_index [C03]: err == nil ==> ref(result0) == ref(idx)
+
+//@ func ReadOrGenerateIndex
+//@   requires origin [C03]: pos(rs) == sbase(rs)
+//@   let version, verr := call[ReadVersion#0]
+//@   let v2r, nerr := call[NewReader#0]
+//@   let hasidx := call[Header.HasIndex#0]
+//@   let ir, irerr := call[Reader.IndexReader#0]
+//@   let dr, drerr := call[Reader.DataReader#0]
+//@   call[Seeker.Seek#0] assert rewinds [C03]: arg1 == 0 && arg2 == 0
+//@   call[GenerateIndex#0] assert v1_from_the_start [C03]: version == 1 && ref(arg0) == ref(rs) && arg1 == opts && pos(rs) == sbase(rs)
+//@   call[Header.HasIndex#0] assert header_of_this_file [C03,C07]: arg0 == v2r.Header
+//@   call[index.ReadFrom#0] assert embedded_only_if_declared [C03,C07]: version == 2 && hasidx && ref(arg0) == ref(ir)
+//@   call[GenerateIndex#1] assert v2_from_the_payload_window [C03]: version == 2 && !hasidx && drerr == nil && ref(arg0) == ref(dr) && arg1 == opts
+//@   ensures other_versions_rejected [C03,C09]: verr == nil && version != 1 && version != 2 ==> err != nil
+
+//@ func WrapV1File
+//@   let src, serr := call[os.Open#0]
+//@   let dst, derr := call[os.Create#0]
+//@   call[os.Open#0] assert opens_the_source [C10]: arg0 == srcPath
+//@   call[os.Create#0] assert creates_the_destination [C10]: arg0 == dstPath
+//@   call[os.Open#0] assume at_origin: err == nil ==> pos(result0) == 0 && sbase(result0) == 0
+//@   call[WrapV1#0] assert wraps_source_into_destination [C10]: ref(arg0) == ref(src) && ref(arg1) == ref(dst) && len(arg2) == 0
+
+//@ func AttachIndex
+//@   let out, oerr := call[os.OpenFile#0]
+//@   call[os.OpenFile#0] assert same_file_no_truncation [C10,C11]: arg0 == path && arg1 == 1089
+//@   call[io.NewOffsetWriter#0] assert at_the_given_offset [C10,C11]: ref(arg0) == ref(out) && arg1 == wrap_s64(offset)
+//@   call[index.WriteTo#0] assert that_index [C10,C11]: ref(arg0) == ref(idx) && ref(arg1) == ref(indexWriter)
